@@ -172,6 +172,23 @@ func keyString(k reflect.Value) string {
 }
 
 func globalsInvariant(res *shardResult, thorough bool, shard, n int) {
+	// warm-up pass: every call once, so that one-time, idempotent initialisation (e.g. a table built under
+	// sync.Once at first use) has happened; the invariant is then that NO later call changes package-level state
+	for idx, t := range bind.Types {
+		if idx%n != shard {
+			continue
+		}
+		valenum.Enum(t, valenum.Opts{K: 1, Big: false}, func(c *valenum.Case) bool {
+			msg := bind.MustReal(c.V)
+			buf := &bytes.Buffer{}
+			func() {
+				defer func() { recover() }()
+				_ = bind.Encode(msg, buf)
+				_ = bind.Decode(bind.New(t), buf)
+			}()
+			return c.NDev == 0 // the two bases suffice to trigger first-use initialisation
+		})
+	}
 	per := map[string]uint64{}
 	before := hashGlobals(per)
 	res.Globals = map[string]int{}
